@@ -147,7 +147,7 @@ pub fn inherits_maps(locales: &[&str]) -> Vec<Vec<(String, String)>> {
 }
 
 pub fn run(tier: Tier) -> i32 {
-    let rep = Reporter::new("C03", "L1", tier);
+    let rep = Reporter::new("C03", &engine_name("L1"), tier);
     let scratch = Scratch::new("c03");
     let keys_total = Mutex::new(0u64);
     let locale_sets: Vec<Vec<&str>> = match tier {
